@@ -104,6 +104,23 @@ let () =
             | _ -> verdict_string toks (loracle lops (List.map parse_obs outs)) in
           Mlutil.print_model (List.map tok m) verdict
         end
+    | "early", [mode; busy] ->
+        (* model (Model/LifecycleAsm.v): after cancel every listener's Start runs to its end — bound ones close their
+           listener, the one that could not bind holds nothing — and main()'s waits return (no_listener_left_open) *)
+        let e = { f_web = (mode = "clash" && busy = "web"); f_smtp = (mode = "clash" && busy = "smtp"); f_pop3 = (mode = "clash" && busy = "pop3") } in
+        let bo = boot_pinned e true in
+        let st n = if mode = "clash" && busy = n then n ^ "=held-by-harness" else n ^ "=closed" in
+        let m = [st "web"; st "smtp"; st "pop3"; (if bo.bo_returns then "returns" else "stuck")] in
+        let verdict = match outs with
+          | [w; s; p; r] ->
+              let bad = List.filter (fun (n, x) -> x <> st n) [("web", w); ("smtp", s); ("pop3", p)] in
+              (match bad with
+               | (n, x) :: _ -> "fail:listener-still-open-after-shutdown-was-requested(" ^ x ^ ")"
+               | [] -> if r <> "returns" then "fail:shutdown-does-not-end:" ^ r else "ok")
+          | "CRASH" :: _ -> "fail:process-died-during-the-schedule(panic-in-a-goroutine-of-the-code-under-test)"
+          | o :: _ when String.length o > 5 && String.sub o 0 5 = "fail:" -> o
+          | _ -> "fail:observation-does-not-fit" in
+        Mlutil.print_model m verdict
     | "scan", (n :: _ :: k :: _) ->
         (* model: the scanner is in RScan (n-k) when the context is cancelled; count its steps until it has left
            the per-mailbox loop — each such step visits one mailbox *)
